@@ -50,7 +50,7 @@ def sym_tasks(triples):
     return tasks
 
 
-INSERTING = ("Insert", "InsertRun", "Duplicate", "Replace", "Move")
+INSERTING = ("Insert", "InsertRich", "InsertRun", "Duplicate", "Replace", "Move")
 
 
 def _screen(t):
